@@ -295,6 +295,7 @@ def run(ck):
                 kept.append((c, r))
             except pg.Unsupported as u:
                 counts["not-in-model:" + str(u)[:40]] += 1
+    runs += unusual_value_oracle(ck)
     bad, errs = tl.evaluate("C07", texts)
     for k, rc, out in errs:
         ck.corr_problem("correspondence shard %d did not evaluate (rc=%s)" % (k, rc), out)
@@ -348,6 +349,67 @@ def run(ck):
     ck.notes["generator_distribution"] = dict(sorted(stats.items()))
     ck.cov["trusted_base"] = TRUSTED
     ck.log("runs %d, SERs %d, compared in Coq %d (disagreements %d), findings %s" % (runs, sers_checked, len(texts), len(bad), sorted(reported)))
+
+
+def unusual_value_oracle(ck):
+    """Direct oracle on SERs for values outside the model: numpy arrays rewritten with the same bytes in another shape / dtype
+    (the key was updated: it must be listed), an equal copy (not an update of content, but a rewrite: either answer is accepted),
+    and a processor returning a collection where it declared a scalar (output_type_ok must not say PASS)."""
+    import os, shutil, tempfile
+    import numpy as np
+    from semantiva.context_processors import ContextType
+    from semantiva.pipeline import Payload, Pipeline
+    from semantiva.trace.drivers.jsonl import JsonlTraceDriver
+    from harness.lib import components as C
+    pg.setup_impl()
+    n = 0
+    arrays = {"grid": np.arange(6, dtype=np.float64).reshape(2, 3), "mask": np.array([1.0, 2.0, 3.0, 4.0], dtype=np.float32).reshape(2, 2)}
+    for key, how, must_update in (("grid", "ravel", True), ("grid", "reshape", True), ("mask", "view", True), ("grid", "plus", True), ("grid", "copy", None)):
+        for detail in ("hash", "all"):
+            d = tempfile.mkdtemp(prefix="verif_c07_")
+            try:
+                path = os.path.join(d, "t.ser.jsonl")
+                cfg = [{"processor": "FloatValueDataSource", "parameters": {"value": 2.0}}, {"processor": C.make_array_rewriter(key, how)}]
+                Pipeline(cfg, trace=JsonlTraceDriver(path, detail=detail)).process(Payload(None, ContextType({key: arrays[key].copy(), "other": 1.0})))
+                sers = [r for r in (json.loads(l) for l in open(path)) if r.get("record_type") == "ser"]
+            except Exception as ex:  # noqa
+                ck.corr_problem("unusual-value oracle could not run (%s %s)" % (key, how), repr(ex))
+                continue
+            finally:
+                shutil.rmtree(d, ignore_errors=True)
+            n += 1
+            delta = (sers[-1].get("context_delta") or {}) if sers else {}
+            upd, cre = delta.get("updated_keys") or [], delta.get("created_keys") or []
+            if must_update is True and key not in upd:
+                ck.fail_input("C07:ser:context_delta:updated-key-not-listed:numpy-%s" % how,
+                              "a node rewrote context key %r (numpy array, %s: the value changed) but the SER lists updated=%s created=%s" % (key, how, upd, cre),
+                              {"kind": "unusual-value", "key": key, "how": how, "detail": detail})
+            if key in cre or "other" in upd or "other" in cre:
+                ck.fail_input("C07:ser:context_delta:wrong-keys:numpy-%s" % how, "delta lists created=%s updated=%s" % (cre, upd),
+                              {"kind": "unusual-value", "key": key, "how": how, "detail": detail})
+    # a processor that returns a collection where it declared a scalar
+    d = tempfile.mkdtemp(prefix="verif_c07_")
+    try:
+        path = os.path.join(d, "t.ser.jsonl")
+        cfg = [{"processor": "FloatValueDataSource", "parameters": {"value": 2.0}}, {"processor": C.VerifCollectionReturningOperation}]
+        try:
+            Pipeline(cfg, trace=JsonlTraceDriver(path, detail="hash")).process(Payload(None, ContextType({})))
+        except Exception:  # noqa
+            pass
+        sers = [r for r in (json.loads(l) for l in open(path)) if r.get("record_type") == "ser"]
+        n += 1
+        if len(sers) >= 2:
+            post = {c.get("code"): c for c in ((sers[1].get("assertions") or {}).get("postconditions") or [])}
+            ot = post.get("output_type_ok")
+            if ot is not None and ot.get("result") == "PASS":
+                ck.fail_input("C07:ser:check:output_type_ok-PASS-for-a-collection-where-a-scalar-is-declared",
+                              "an operation declared FloatDataType -> FloatDataType returned a FloatDataCollection; its SER says output_type_ok PASS",
+                              {"kind": "unusual-value", "how": "collection-returned"})
+    except Exception as ex:  # noqa
+        ck.corr_problem("unusual-value oracle (collection-returning operation) could not run", repr(ex))
+    finally:
+        shutil.rmtree(d, ignore_errors=True)
+    return n
 
 
 def replay(obj):
